@@ -46,6 +46,44 @@
 
 using namespace mfuse;
 
+// A host class whose commands raise script errors / are write-only or read-only variables: the error
+// paths of OP_STORE_FIELD, OP_LOAD_FIELD_VAR, OP_LOAD_SELF_VAR, OP_EXEC_* as a host can provoke them.
+EventDef EV_VProbe_WOnly("vp_wonly", EV_DEFAULT, "i", "value", "write-only variable", evType_e::Setter);
+EventDef EV_VProbe_ROnly("vp_ronly", EV_DEFAULT, NULL, NULL, "read-only variable", evType_e::Getter);
+EventDef EV_VProbe_FailGet("vp_failget", EV_DEFAULT, NULL, NULL, "getter that raises", evType_e::Getter);
+EventDef EV_VProbe_FailSet("vp_failset", EV_DEFAULT, "i", "value", "setter that raises", evType_e::Setter);
+EventDef EV_VProbe_FailSetG("vp_failset", EV_DEFAULT, NULL, NULL, "its getter", evType_e::Getter);
+EventDef EV_VProbe_Fail("vp_fail", EV_DEFAULT, "IIIIII", "a b c d e f", "command that raises", evType_e::Normal);
+EventDef EV_VProbe_FailRet("vp_failret", EV_DEFAULT, "IIIIII", "a b c d e f", "method that raises", evType_e::Return);
+EventDef EV_VProbe_Echo("vp_echo", EV_DEFAULT, "IIIIII", "a b c d e f", "method that returns its argument count", evType_e::Return);
+
+class VProbe : public SimpleEntity
+{
+    MFUS_CLASS_PROTOTYPE(VProbe);
+public:
+    void WOnly(Event&) {}
+    void ROnly(Event& ev) { ev.AddLong(7); }
+    void FailGet(Event&) { throw ScriptException("vp_failget raised"); }
+    void FailSet(Event&) { throw ScriptException("vp_failset raised"); }
+    void FailSetG(Event& ev) { ev.AddLong(1); }
+    void Fail(Event&) { throw ScriptException("vp_fail raised"); }
+    void FailRet(Event&) { throw ScriptException("vp_failret raised"); }
+    void Echo(Event& ev) { ev.AddLong(long(ev.NumArgs())); }
+};
+
+MFUS_CLASS_DECLARATION(SimpleEntity, VProbe, "vprobe")
+{
+    { &EV_VProbe_WOnly, &VProbe::WOnly },
+    { &EV_VProbe_ROnly, &VProbe::ROnly },
+    { &EV_VProbe_FailGet, &VProbe::FailGet },
+    { &EV_VProbe_FailSet, &VProbe::FailSet },
+    { &EV_VProbe_FailSetG, &VProbe::FailSetG },
+    { &EV_VProbe_Fail, &VProbe::Fail },
+    { &EV_VProbe_FailRet, &VProbe::FailRet },
+    { &EV_VProbe_Echo, &VProbe::Echo },
+    { NULL, NULL }
+};
+
 namespace {
 uint64_t g_clock = 0;
 uint64_t g_clockStep = 0;
@@ -59,6 +97,7 @@ struct Obs { long off; unsigned long idx; int marked; };
 inline bool operator<(const Obs& a, const Obs& b) { return std::tie(a.off, a.idx, a.marked) < std::tie(b.off, b.idx, b.marked); }
 std::set<Obs> g_starts;                         // first probe of a VM
 std::set<std::pair<Obs, Obs>> g_edges;          // consecutive probes of one VM
+std::vector<std::pair<Obs, Obs>> g_edgeOrder;   // the same, in order of first occurrence (the first bad one is the root cause)
 std::set<std::pair<Obs, unsigned long>> g_ends; // last probe of a VM that ended, stack index at the end
 std::set<std::pair<Obs, unsigned long>> g_stackerr; // last probe before the VM's own stack check fired > reported index
 std::map<const ScriptVM*, Obs> g_last;
@@ -88,7 +127,7 @@ void probe(const ScriptVM* vm, intptr_t offset, uintptr_t stackIndex, size_t, bo
     } else if (it != g_last.end()) {
         // (m_PrevCodePos itself is no reliable predecessor: ScriptVM::EventThrow overwrites it with the
         // end of the try block; a VM whose address is reused starts with m_PrevCodePos == nullptr)
-        g_edges.insert(std::make_pair(it->second, cur));
+        if (g_edges.insert(std::make_pair(it->second, cur)).second) g_edgeOrder.push_back(std::make_pair(it->second, cur));
     } else {
         ++g_stale;                             // address reused by a new VM / unknown predecessor: no edge recorded
     }
@@ -110,7 +149,7 @@ std::string dynamicPart()
     o << " starts=";
     { bool first = true; for (auto& p : g_starts) { if (!first) o << ','; first = false; o << obs(p); } }
     o << " edges=";
-    { bool first = true; for (auto& p : g_edges) { if (!first) o << ','; first = false; o << obs(p.first) << '>' << obs(p.second); } }
+    { bool first = true; for (auto& p : g_edgeOrder) { if (!first) o << ','; first = false; o << obs(p.first) << '>' << obs(p.second); } }
     o << " ends=";
     { bool first = true; for (auto& p : g_ends) { if (!first) o << ','; first = false; o << obs(p.first) << '>' << p.second; } }
     o << " stackerr=";
@@ -212,7 +251,7 @@ int main()
         verif::vm_probe = nullptr;
         clearStreams();
         freshContext();
-        g_starts.clear(); g_edges.clear(); g_ends.clear(); g_stackerr.clear(); g_last.clear(); g_haveLast = false; g_static.clear(); g_runs.clear(); g_nprobe = 0; g_stale = 0; g_budget = 0;
+        g_starts.clear(); g_edges.clear(); g_edgeOrder.clear(); g_ends.clear(); g_stackerr.clear(); g_last.clear(); g_haveLast = false; g_static.clear(); g_runs.clear(); g_nprobe = 0; g_stale = 0; g_budget = 0;
         const ProgramScript* s = nullptr;
         try {
             imemstream stream(src.data(), src.size());
@@ -276,7 +315,7 @@ int main()
         prot.SetMaxExecutionTime(0);
         prot.SetLoopProtection(true);
         SimpleEntity* selfEnt = nullptr;
-        if (withSelf) selfEnt = new SimpleEntity;
+        if (withSelf) selfEnt = new VProbe;
         size_t warnLines = 0;
         for (size_t k = 0; k < entries.size(); ++k) {
             std::string outcome = "ok";
@@ -323,7 +362,7 @@ int main()
                 ThreadExecutionProtection& p2 = g_ctx->GetDirector().GetThreadExecutionProtection();
                 p2.SetMaxExecutionTime(0);
                 p2.SetLoopProtection(true);
-                if (withSelf) selfEnt = new SimpleEntity;
+                if (withSelf) selfEnt = new VProbe;
                 verif::vm_probe = &probe;
             }
         }
